@@ -33,6 +33,12 @@ func pool() []vegeta.Result {
 		{Seq: 4, Code: 399, Timestamp: t0, Latency: 7 * time.Millisecond, BytesIn: 7, BytesOut: 1},     // same timestamp as #0
 		{Seq: 5, Code: 400, Timestamp: t0.Add(3 * time.Second), Latency: 2 * time.Second, Error: "e1"}, // duplicate error text
 		{Seq: 6, Code: 199, Timestamp: t0.Add(2 * time.Second), Latency: 5 * time.Millisecond, Error: "199 weird"},
+		// status codes that are not three digits wide (foreign or crafted result files, library users): 20 and 3000
+		// are no successes although they start with 2 / 3
+		{Seq: 7, Code: 20, Timestamp: t0.Add(time.Second), Latency: time.Millisecond, Error: "e20"},
+		{Seq: 8, Code: 3000, Timestamp: t0.Add(time.Second), Latency: time.Millisecond},
+		// an error text on a success status (e.g. a body cut short, as another producer may record it), carried by no failed result
+		{Seq: 9, Code: 200, Timestamp: t0.Add(time.Second), Latency: time.Millisecond, BytesIn: 2, Error: "unexpected EOF"},
 	}
 }
 
@@ -292,11 +298,11 @@ func run(p []vegeta.Result, seq []int, mask int, withHist bool) *vegeta.Metrics 
 
 func TestC10(t *testing.T) {
 	R := ev.New("C10")
-	R.Rule = "all ordered sequences of length 0..L over a pool of 7 boundary results x all 2^len placements of intermediate Close; a case is distinct+non-trivial when its (multiset, close-mask) differs and the multiset has >=2 results that differ in latency or timestamp"
+	R.Rule = "all ordered sequences of length 0..L over a pool of 10 boundary results x all 2^len placements of intermediate Close; a case is distinct+non-trivial when its (multiset, close-mask) differs and the multiset has >=2 results that differ in latency or timestamp"
 	R.Assume("conventions at zero duration (rate, throughput) follow the code; they are only compared across orders, not with the reference")
 	R.Assume("latency percentiles are excluded here (C11)")
 	p := pool()
-	L := ev.Pick(4, 5)
+	L := ev.Pick(4, 5) // the pool has 10 results: 11111 sequences of length <= 4 (x 2^len Close placements)
 	R.Set("max_sequence_length", L)
 	R.Set("pool_size", len(p))
 
